@@ -43,10 +43,14 @@ RECURSIVE Pow(_, _)
 Pow(b, e) == IF e = 0 THEN 1 ELSE b * Pow(b, e - 1)
 PolyVal(idx0, shift, power, scale) == LET F(k) == Pow(idx0[k] + shift[k], power) IN scale * SumTo(F, Len(idx0))
 
+\* positions of the delta tensor: 0 .. n_k - 1 from the front, -n_k .. -1 from the end (per mode, in any combination)
+MaxMode(n) == CHOOSE m \in { n[k] : k \in 1..Len(n) } : \A k \in 1..Len(n) : n[k] <= m
+SignedIdx(n) == { i \in [1..Len(n) -> (0 - MaxMode(n))..(MaxMode(n) - 1)] : \A k \in 1..Len(n) : i[k] \in (0 - n[k])..(n[k] - 1) }
+NormIdx(i, n) == [k \in 1..Len(n) |-> IF i[k] >= 0 THEN i[k] ELSE n[k] + i[k]]
 Cases ==
   UNION { {[kind |-> "const", n |-> n, zs |-> zs, inz |-> inz] :
              zs \in UNION {[1..z -> AllIdx(n)] : z \in 0..ZMax}, inz \in AllIdx(n) \cup {<<>>}} : n \in ShapesC } \cup
-  UNION { {[kind |-> "delta", n |-> n, i |-> i] : i \in AllIdx(n)} : n \in ShapesC } \cup
+  UNION { {[kind |-> "delta", n |-> n, i |-> i] : i \in SignedIdx(n)} : n \in ShapesC } \cup      \* positions from the front or from the end
   {[kind |-> "vdelta", q |-> q, i |-> i] : q \in 1..QMax, i \in (-(2^QMax) - 1)..(2^QMax)} \cup
   {[kind |-> "mdelta", q |-> q, i |-> i, j |-> j] : q \in 1..(QMax - 1), i \in (-(2^(QMax-1)) - 1)..(2^(QMax-1)), j \in (-(2^(QMax-1)) - 1)..(2^(QMax-1))} \cup
   {[kind |-> "poly", n |-> n, shift |-> [k \in 1..Len(n) |-> sh + (k % 2)], power |-> pw, scale |-> sc] :
@@ -61,7 +65,7 @@ Expected ==
   CASE c.kind = "const" ->
          LET m == ConstMask(c.n, c.zs, c.inz)
          IN [raises |-> ~m.ok, mask |-> IF m.ok THEN m.mask ELSE <<>>]
-    [] c.kind = "delta" -> [raises |-> FALSE, mask |-> [p \in 1..Size(c.n) |-> IF p = FlatPos(c.i, c.n) THEN 1 ELSE 0]]
+    [] c.kind = "delta" -> [raises |-> FALSE, mask |-> [p \in 1..Size(c.n) |-> IF p = FlatPos(NormIdx(c.i, c.n), c.n) THEN 1 ELSE 0]]
     [] c.kind = "vdelta" -> IF InRange(c.q, c.i) THEN [raises |-> FALSE, bits |-> Bits(c.q, Pos(c.q, c.i))] ELSE [raises |-> TRUE]
     [] c.kind = "mdelta" -> IF InRange(c.q, c.i) /\ InRange(c.q, c.j)
                               THEN [raises |-> FALSE, bi |-> Bits(c.q, Pos(c.q, c.i)), bj |-> Bits(c.q, Pos(c.q, c.j))]
